@@ -854,7 +854,33 @@ def r_tracker_ship(e, R):
             if isinstance(t.value, ast.Subscript) and isinstance(t.value.slice, ast.Constant) and isinstance(t.slice, ast.Constant) \
                     and isinstance(n.value, ast.Attribute) and any(x[0] == "obj" and x[2] == f"{RT}:ResourceTracker" for x in e.pt.ev(gp, n.value.value)):
                 written[(t.value.slice.value, t.slice.value)] = n.value.attr
+    # the same entry built through a local name: `entry = {...}; d["tracker_args"] = entry; entry["fd"] = ...`
+    alias_key = {}
+    for n in func_nodes(gp):
+        if isinstance(n, ast.Assign) and isinstance(n.targets[0], ast.Subscript) and isinstance(n.targets[0].slice, ast.Constant) and isinstance(n.value, ast.Name) \
+                and any(isinstance(d_, ast.Dict) for d_ in e.local_defs(gp, n.value.id)):
+            alias_key[n.value.id] = n.targets[0].slice.value
+    def is_tracker_field(fn_, v):
+        return isinstance(v, ast.Attribute) and any(x[0] == "obj" and x[2] == f"{RT}:ResourceTracker" for x in e.pt.ev(fn_, v.value))
+    for n in func_nodes(gp):
+        if isinstance(n, ast.Assign) and isinstance(n.targets[0], ast.Name) and n.targets[0].id in alias_key and isinstance(n.value, ast.Dict):
+            for k, v in zip(n.value.keys, n.value.values):
+                if isinstance(k, ast.Constant) and is_tracker_field(gp, v):
+                    written[(alias_key[n.targets[0].id], k.value)] = v.attr
+        if isinstance(n, ast.Assign) and isinstance(n.targets[0], ast.Subscript) and isinstance(n.targets[0].value, ast.Name) and n.targets[0].value.id in alias_key \
+                and isinstance(n.targets[0].slice, ast.Constant) and is_tracker_field(gp, n.value):
+            written[(alias_key[n.targets[0].value.id], n.targets[0].slice.value)] = n.value.attr
     read = {}
+    ralias = {}
+    for n in func_nodes(pr):
+        if isinstance(n, ast.Assign) and isinstance(n.targets[0], ast.Name) and isinstance(n.value, ast.Subscript) and isinstance(n.value.slice, ast.Constant) \
+                and isinstance(n.value.value, ast.Name) and n.value.value.id in pr.params and len(e.local_defs(pr, n.targets[0].id)) == 1:
+            ralias[n.targets[0].id] = n.value.slice.value
+    for n in func_nodes(pr):
+        if isinstance(n, ast.Assign) and isinstance(n.targets[0], ast.Attribute) and isinstance(n.value, ast.Subscript) and isinstance(n.value.value, ast.Name) \
+                and n.value.value.id in ralias and isinstance(n.value.slice, ast.Constant) \
+                and any(x[0] == "obj" and x[2] == f"{RT}:ResourceTracker" for x in e.pt.ev(pr, n.targets[0].value)):
+            read[(ralias[n.value.value.id], n.value.slice.value)] = n.targets[0].attr
     for n in func_nodes(pr):
         if isinstance(n, ast.Assign) and isinstance(n.targets[0], ast.Attribute) and isinstance(n.value, ast.Subscript) \
                 and isinstance(n.value.value, ast.Subscript) and isinstance(n.value.slice, ast.Constant) and isinstance(n.value.value.slice, ast.Constant) \
@@ -901,8 +927,9 @@ def r_tracker_ship(e, R):
         return ev
     loky_inst = [n for n in installs if any(x[0] == "obj" and x[2] == f"{RT}:ResourceTracker" for x in e.pt.ev(pr, n.ast.targets[0].value))]
     for key in sorted(k for k in keys if k in {kk[0] for kk, v in written.items()}):
-        mine = [n for n in installs if isinstance(n.ast.value, ast.Subscript) and isinstance(n.ast.value.value, ast.Subscript)
-                and isinstance(n.ast.value.value.slice, ast.Constant) and n.ast.value.value.slice.value == key]
+        mine = [n for n in installs if isinstance(n.ast.value, ast.Subscript) and (
+            (isinstance(n.ast.value.value, ast.Subscript) and isinstance(n.ast.value.value.slice, ast.Constant) and n.ast.value.value.slice.value == key)
+            or (isinstance(n.ast.value.value, ast.Name) and ralias.get(n.ast.value.value.id) == key))]
         for attr_ in ("_fd", "_pid"):
             tg = [n for n in mine if n.ast.targets[0].attr == attr_]
             okE = SC.Facts([], [has_key(True, key)]).edge_ok()
@@ -917,8 +944,11 @@ def r_tracker_ship(e, R):
                 "prepare() reads a tracker entry that is not in the data: the child dies at start-up", e.loc(pr, pr.node))
     # the parent writes the tracker entry unconditionally (both fields on this platform)
     gg = e.cfg(gp)
-    wr_nodes = [n for n in gg.nodes if n.kind == "stmt" and isinstance(n.ast, ast.Assign) and isinstance(n.ast.targets[0], ast.Subscript)
-                and any(isinstance(x, ast.Constant) and x.value == "tracker_args" for x in ast.walk(n.ast.targets[0]))]
+    tnames = {nm for nm, k_ in alias_key.items() if k_ == "tracker_args"}
+    wr_nodes = [n for n in gg.nodes if n.kind == "stmt" and isinstance(n.ast, ast.Assign) and (
+        (isinstance(n.ast.targets[0], ast.Subscript) and (any(isinstance(x, ast.Constant) and x.value == "tracker_args" for x in ast.walk(n.ast.targets[0]))
+                                                          or (isinstance(n.ast.targets[0].value, ast.Name) and n.ast.targets[0].value.id in tnames)))
+        or (isinstance(n.ast.targets[0], ast.Name) and n.ast.targets[0].id in tnames))]
     arm2 = lambda n, m, l: not (n.kind == "test" and l in ("T", "F") and static_truth(n.ast) is not None and (l == "T") != static_truth(n.ast))
     for want in ("_pid", "_fd"):
         tg = [n for n in wr_nodes if any(isinstance(x, ast.Attribute) and x.attr == want for x in ast.walk(n.ast.value))]
